@@ -53,8 +53,20 @@ def gen_base(rng, want):
         sc.ads1 = [G.gen_adapter(rng, i, kinds=simple) for i in range(len(sc.ads1))]
         sc.ads2 = [G.gen_adapter(rng, i, upper=True, prefix="bd", kinds=simple) for i in range(len(sc.ads1))]
         sc.pair_adapters = True
+        if rng.random() < 0.4:
+            # two ranks share the adapter sequence on one side (different names / tolerances / partners)
+            if len(sc.ads1) < 2:
+                sc.ads1.append(G.gen_adapter(rng, 1, kinds=simple))
+                sc.ads2.append(G.gen_adapter(rng, 1, upper=True, prefix="bd", kinds=simple))
+            side = sc.ads1 if rng.random() < 0.6 else sc.ads2
+            a0, a1 = side[0], side[1]
+            a1["kind"], a1["parts"], a1["flag"] = a0["kind"], list(a0["parts"]), a0["flag"]
+            a1["spec"] = a0["spec"] + rng.choice(["", ";e=0", ";e=0.25"])
+            a1["argv"] = [a1["flag"], f"{a1['name']}={a1['spec']}"]
     sc.times = 1 if sc.pair_adapters else rng.choice([1, 1, 1, 2])
     sc.mods = []
+    if rng.random() < 0.15:
+        sc.mods += ["--nextseq-trim", rng.choice(["10", "20"])]
     if rng.random() < 0.35:
         sc.mods += ["-q", rng.choice(["10", "15,5", "20"])]
     if rng.random() < 0.25:
